@@ -361,6 +361,15 @@ pub fn run_scenario(sc: &Value) -> Vec<Value> {
                 let m = base_event("New", &json!("ok"), "", &sink);
                 ex.ev(m);
             }
+            "Load" => {
+                let b = unhex(op["hex"].as_str().unwrap_or(""));
+                let mut m = Map::new();
+                m.insert("ev".into(), json!("Load"));
+                m.insert("len".into(), json!(b.len()));
+                m.insert("arch".into(), json!(archives.len()));
+                archives.push(b);
+                ex.ev(m);
+            }
             "Compare" => {
                 let (a, b) = (op["a"].as_u64().unwrap_or(0) as usize, op["b"].as_u64().unwrap_or(1) as usize);
                 let mut m = Map::new();
